@@ -67,14 +67,23 @@ def cpu_budget(seconds: float):
         signal.setitimer(signal.ITIMER_PROF, 0, 0)
 
 
+_HANGS = [0]      # budget overruns seen by this worker process
+HANG_CAP = 6
+
+
 def guarded(fn, seconds=10.0):
     """Run fn() under the CPU budget. Returns ('ok', value) | ('exc', exception) | ('hang', None).
     Memory exhaustion (RLIMIT_AS) counts as 'hang'; the exception (whose traceback pins the frames
     holding the memory) is dropped and the garbage collected before returning."""
+    if _HANGS[0] >= HANG_CAP:
+        # this process has already met several runs that never finished: the verdict of the check is decided (every check
+        # treats a hang as a violation); do not spend the full budget on each of the possibly thousands of further cases
+        seconds = min(seconds, 1.0)
     try:
         with cpu_budget(seconds):
             return ("ok", fn())
     except BudgetExceeded:
+        _HANGS[0] += 1
         return ("hang", None)
     except RecursionError as e:
         return ("exc", e)
